@@ -274,3 +274,18 @@ func rootExpr(e ast.Expr) ast.Expr {
 func splicedScope(sc *types.Scope, body ast.Node) bool {
 	return sc.End() <= body.Pos() || sc.Pos() >= body.End()
 }
+
+// boolLeaves splits a boolean expression at &&, || and ! into its atomic tests (go/cfg keeps a compound condition as one node).
+func boolLeaves(e ast.Expr) []ast.Expr {
+	switch x := ast.Unparen(e).(type) {
+	case *ast.BinaryExpr:
+		if s := x.Op.String(); s == "&&" || s == "||" {
+			return append(boolLeaves(x.X), boolLeaves(x.Y)...)
+		}
+	case *ast.UnaryExpr:
+		if x.Op.String() == "!" {
+			return boolLeaves(x.X)
+		}
+	}
+	return []ast.Expr{ast.Unparen(e)}
+}
